@@ -97,6 +97,9 @@ type Server struct {
 	// ticket to be recognised (no need for it to unseal under TicketKeys).
 	Issued map[[TicketLen]byte]*IssuedTicket
 
+	// SecretLeadingZero: the UniformDH key is chosen so that the shared secret has a leading zero byte.
+	SecretLeadingZero bool
+
 	mu sync.Mutex
 }
 
@@ -332,6 +335,18 @@ func (s *Server) Accept(rw io.ReadWriter, padLen int, split []int) (*Conn, error
 		priv, flip, err := DHGenPrivate(s.Rand)
 		if err != nil {
 			return nil, err
+		}
+		if s.SecretLeadingZero {
+			// pick a key whose shared secret with THIS client starts with a zero byte (1 key in 256): the secret is a
+			// fixed-length 192 byte string, an implementation that strips leading zeros derives other session keys
+			for try := 0; try < 5000; try++ {
+				if sh, _ := DHShared(priv, ri.ClientPub[:]); sh[0] == 0 {
+					break
+				}
+				if priv, flip, err = DHGenPrivate(s.Rand); err != nil {
+					return nil, err
+				}
+			}
 		}
 		pad := make([]byte, padLen)
 		if _, err = io.ReadFull(s.Rand, pad); err != nil {
